@@ -237,6 +237,17 @@ def c13_cases(tier):
     add('form/param-value-not-literal', ['#[enum_tools(as_str(mode = table))]'])
     add('form/param-value-const', ['#[enum_tools(as_str(name = NAME))]'])
     add('form/empty-list-twin', ['#[enum_tools()]'], 'accept')
+    # legal spellings of legal configurations (must compile: a stricter parser would narrow the documented domain)
+    add('spelling/empty-parameter-lists', ['#[enum_tools(as_str(), iter(), names(), MIN(), into(), Debug(), sorted())]'], 'accept')
+    add('spelling/trailing-commas', ['#[enum_tools(as_str(mode = "table",), iter(mode = "table", struct_name = "S",), MIN,)]'], 'accept')
+    add('spelling/raw-and-escaped-strings', ['#[enum_tools(as_str(mode = r"table"), from_str(mode = "ta\\x62le"), FromStr(mode = r#"match"#), MIN(name = r"LOW", vis = r"pub"), iter(mode = "\\u{74}able"))]'], 'accept')
+    for i, perm in enumerate(itertools.permutations(['name = "a"', 'mode = "table"', 'vis = "pub"'])):
+        add('spelling/parameter-order/%d' % i, ['#[enum_tools(as_str(%s))]' % ', '.join(perm)], 'accept')
+    for i, perm in enumerate(itertools.permutations(['name = "a"', 'mode = "table"', 'vis = ""', 'struct_name = "S"'])):
+        if i % 4 == 0:
+            add('spelling/parameter-order-iter/%d' % i, ['#[enum_tools(iter(%s), range)]' % ', '.join(perm)], 'accept')
+    add('spelling/six-attributes', ['#[enum_tools(as_str)]', '#[enum_tools(iter)]', '#[enum_tools()]', '#[enum_tools(MIN, MAX)]', '#[enum_tools(range)]', '#[enum_tools(names, sorted(name))]'], 'accept')
+    add('spelling/attributes-around-derive-and-repr', ['#[enum_tools(as_str)]', '#[allow(dead_code)]', '#[enum_tools(iter)]', '/// doc', '#[enum_tools(MIN)]'], 'accept')
     # values that reach the attribute through a macro_rules fragment (wrapped in an invisible group)
     def via_macro(cls, frag, arg, attr, expect):
         n[0] += 1
